@@ -3159,6 +3159,11 @@ define_enum_type(InterrogateType &itype, CPPEnumType *cpptype) {
 
   int next_value = 0;
 
+  // This may be called a second time for the same type (when a type that was
+  // first seen through a reference is later defined in full); don't list the
+  // values twice.
+  itype._enum_values.clear();
+
   CPPEnumType::Elements::const_iterator ei;
   for (ei = cpptype->_elements.begin();
        ei != cpptype->_elements.end();
